@@ -4,25 +4,15 @@ C08 helper lemmas, part 2: per-rule unfolding of the rule interpreter for the co
 inclusive range).  Each lemma states `isSub R (m + c) a SUPER` for *every* sub type `a` in terms of the
 components, with the exact fuel the nested calls receive.
 -/
-import Verif.Proofs.SubUnfold
+import Verif.Proofs.SubBase
 namespace Verif.Proofs.SubUnfold
 open Verif.Model.Types Verif.Model.Types.Struct Verif.Model.Auth
-
-theorem ty_beq (a b : Ty) : (a == b) = decide (a = b) := by
-  by_cases h : a = b <;> simp [h]
 
 theorem find_opt (e : Ty) : R.find? (fun r => if r.complex then (Ty.opt e).isKind r.super else (Ty.opt e) == .prim r.super) = some RulesPinned.rule16 := rfl
 theorem find_dict (k v : Ty) : R.find? (fun r => if r.complex then (Ty.dict k v).isKind r.super else (Ty.dict k v) == .prim r.super) = some RulesPinned.rule17 := rfl
 theorem find_varArr (e : Ty) : R.find? (fun r => if r.complex then (Ty.varArr e).isKind r.super else (Ty.varArr e) == .prim r.super) = some RulesPinned.rule18 := rfl
 theorem find_constArr (e : Ty) (n : Nat) : R.find? (fun r => if r.complex then (Ty.constArr e n).isKind r.super else (Ty.constArr e n) == .prim r.super) = some RulesPinned.rule19 := rfl
 theorem find_ref (au : Access String) (t : Ty) : R.find? (fun r => if r.complex then (Ty.ref au t).isKind r.super else (Ty.ref au t) == .prim r.super) = some RulesPinned.rule20 := rfl
-theorem find_comp (n : String) (k : Kind) (cs : List String) (b : Bool) : R.find? (fun r => if r.complex then (Ty.comp n k cs b).isKind r.super else (Ty.comp n k cs b) == .prim r.super) = some RulesPinned.rule21 := rfl
-theorem find_iface (i : Iface) : R.find? (fun r => if r.complex then (Ty.iface i).isKind r.super else (Ty.iface i) == .prim r.super) = some RulesPinned.rule22 := rfl
-theorem find_inter (is : List Iface) : R.find? (fun r => if r.complex then (Ty.inter is).isKind r.super else (Ty.inter is) == .prim r.super) = some RulesPinned.rule23 := rfl
-theorem find_fn (v : Bool) (p r : Ty) : R.find? (fun r' => if r'.complex then (Ty.fn v p r).isKind r'.super else (Ty.fn v p r) == .prim r'.super) = some RulesPinned.rule24 := rfl
-theorem find_capAny : R.find? (fun r => if r.complex then Ty.capAny.isKind r.super else Ty.capAny == .prim r.super) = some RulesPinned.rule25 := rfl
-theorem find_cap (t : Ty) : R.find? (fun r => if r.complex then (Ty.cap t).isKind r.super else (Ty.cap t) == .prim r.super) = some RulesPinned.rule25 := rfl
-theorem find_range (t : Ty) : R.find? (fun r => if r.complex then (Ty.range t).isKind r.super else (Ty.range t) == .prim r.super) = some RulesPinned.rule25 := rfl
 
 theorem isSubC_opt (m : Nat) (a s : Ty) :
     isSub R (m + 8) a (.opt s) = (a == .opt s || (a == never ||
@@ -64,111 +54,5 @@ theorem isSubC_ref (m : Nat) (a t : Ty) (au : Access String) :
   rw [isSub_rule (m + 6) a _ _ (find_ref au t)]
   cases a <;> simp [RulesPinned.rule20, evalPred, evalExpr, field, Ty.isKind, subVal]
 
-
-theorem isSubC_comp (m : Nat) (a : Ty) (n : String) (k : Kind) (cs : List String) (b : Bool) :
-    isSub R (m + 12) a (.comp n k cs b) = (a == .comp n k cs b || a == never) := by
-  rw [isSub_rule (m + 10) a _ _ (find_comp n k cs b)]
-  cases a <;> simp [RulesPinned.rule21, evalPred, evalExpr, field, Ty.isKind, Pred.isSwitch, valEqOneOf, valEq]
-
-theorem isSubC_iface (m : Nat) (a : Ty) (i : Iface) :
-    isSub R (m + 12) a (.iface i) = (a == .iface i || (a == never ||
-      match a with
-      | .comp _ k cs _ => k == i.kind && cs.contains i.name
-      | .inter is => (interSet is).contains i.name
-      | .iface j => j.confs.contains i.name
-      | _ => false)) := by
-  rw [isSub_rule (m + 10) a _ _ (find_iface i)]
-  cases a <;> simp [RulesPinned.rule22, evalPred, evalExpr, field, Ty.isKind, Pred.isSwitch, valEqOneOf, valEq]
-
-theorem isSubC_inter (m : Nat) (a : Ty) (sup : List Iface) :
-    isSub R (m + 20) a (.inter sup) = (a == .inter sup || (a == never ||
-      match a with
-      | .inter sb => subset (interSet sup) (interSet sb)
-      | .comp _ _ cs _ => subset (interSet sup) cs
-      | .iface i => subset (interSet sup) i.confs
-      | _ => false)) := by
-  rw [isSub_rule (m + 18) a _ _ (find_inter sup)]
-  cases a <;> simp [RulesPinned.rule23, evalPred, evalExpr, field, Ty.isKind, subVal, Pred.isSwitch, Expr.isOneOf, valEqOneOf, valEq, ty_beq, never]
-
-
-/-- the predicate of the function rule's `forAll` over parameters: `target <: source` (contravariance) -/
-def paramPred : Pred :=
-  .subtype (.member (.member (.ident "target") "TypeAnnotation") "Type") (.member (.member (.ident "source") "TypeAnnotation") "Type")
-
-theorem field_ta (t : Ty) : field (.ty t) "TypeAnnotation" = .param t := by cases t <;> rfl
-
-theorem forAll_nil (k : Nat) (env : Env) (p : Pred) : forAllPairs R (k + 1) env p [] [] = true := by
-  simp [forAllPairs]
-
-theorem fld_fn1 (v p r) : field (.ty (.fn v p r)) "Purity" = .purity v := rfl
-theorem fld_fn2 (v p r) : field (.ty (.fn v p r)) "TypeParameters" = .tys [] := rfl
-theorem fld_fn3 (v p r) : field (.ty (.fn v p r)) "Parameters" = .tys p.toList := rfl
-theorem fld_fn4 (v p r) : field (.ty (.fn v p r)) "Arity" = .nil := rfl
-theorem fld_fn5 (v p r) : field (.ty (.fn v p r)) "IsConstructor" = .bool false := rfl
-
-theorem isSubC_fn_fn (m : Nat) (v : Bool) (p r : Ty) (v' : Bool) (p' r' : Ty) :
-    isSub R (m + 12) (.fn v p r) (.fn v' p' r') = (Ty.fn v p r == .fn v' p' r' ||
-      ((v == v' || v) &&
-          (forAllPairs R (m + 5) { sub := .ty (.fn v p r), super := .ty (.fn v' p' r') } paramPred p.toList p'.toList &&
-           isSub R (m + 3) r r'))) := by
-  rw [isSub_rule (m + 10) _ _ _ (find_fn v' p' r')]
-  simp only [RulesPinned.rule24, evalPred, evalExpr, fld_fn1, fld_fn2, fld_fn3, fld_fn4, fld_fn5, Ty.isKind]
-  simp [valEqOneOf, valEq, forAll_nil, paramPred, never, ty_beq]
-
-/-- a sub type that is not a function type is below a function type only if it is `Never` -/
-theorem isSubC_fn_other (m : Nat) (a : Ty) (h : ∀ v p r, a ≠ .fn v p r) (v' : Bool) (p' r' : Ty) :
-    isSub R (m + 12) a (.fn v' p' r') = (a == never) := by
-  rw [isSub_rule (m + 10) _ _ _ (find_fn v' p' r')]
-  cases a <;> first | exact absurd rfl (h _ _ _) | simp [RulesPinned.rule24, evalPred, evalExpr, Ty.isKind, ty_beq]
-
-
-/-! ### parameterized types: `Capability`, `Capability<T>`, `InclusiveRange<T>` -/
-
-theorem find_IR : R.find? (fun r => if r.complex then (Ty.prim "InclusiveRange").isKind r.super else (Ty.prim "InclusiveRange") == .prim r.super) = none := rfl
-
-theorem isSub_one (a b : Ty) : isSub R 1 a b = (a == b) := by simp [isSub, check]
-theorem isSub_self (k : Nat) (t : Ty) : isSub R (k + 1) t t = true := by simp [isSub]
-
-/-- the base type `InclusiveRange` is not below a parameterized type (any fuel) -/
-theorem isSub_IR_param (k : Nat) (x : Ty) (hx : x = .capAny ∨ (∃ t, x = .cap t) ∨ ∃ t, x = .range t) :
-    isSub R k (.prim "InclusiveRange") x = false := by
-  have hf : R.find? (fun r => if r.complex then x.isKind r.super else x == .prim r.super) = some RulesPinned.rule25 := by
-    rcases hx with rfl | ⟨t, rfl⟩ | ⟨t, rfl⟩ <;> rfl
-  have hne : (Ty.prim "InclusiveRange" == x) = false := by
-    rcases hx with rfl | ⟨t, rfl⟩ | ⟨t, rfl⟩ <;> rfl
-  match k with
-  | 0 => rfl
-  | 1 => rw [isSub_one, hne]
-  | 2 => rw [isSub_rule 0 _ _ _ hf, hne]; simp [never, evalPred]
-  | 3 => rw [isSub_rule 1 _ _ _ hf, hne]; simp [never, evalPred, RulesPinned.rule25]
-  | k + 4 => rw [isSub_rule (k + 2) _ _ _ hf, hne]; simp [never, evalPred, RulesPinned.rule25, evalExpr, Ty.isKind]
-
-/-- `Capability` is not below `InclusiveRange` (any fuel) -/
-theorem isSub_capAny_IR (k : Nat) : isSub R k .capAny (.prim "InclusiveRange") = false := by
-  match k with
-  | 0 => rfl
-  | 1 => rw [isSub_one]; rfl
-  | k + 2 => rw [isSub_norule k _ _ find_IR]; rfl
-
-/-- `Capability <: Capability<T>` fails (any fuel) -/
-theorem isSub_capAny_cap (k : Nat) (t : Ty) : isSub R k .capAny (.cap t) = false := by
-  have hne : (Ty.capAny == Ty.cap t) = false := by simp [ty_beq]
-  match k with
-  | 0 => rfl
-  | 1 => rw [isSub_one, hne]
-  | 2 => rw [isSub_rule 0 _ _ _ (find_cap t), hne]; simp [never, evalPred, ty_beq]
-  | 3 => rw [isSub_rule 1 _ _ _ (find_cap t), hne]; simp [never, evalPred, ty_beq, RulesPinned.rule25]
-  | 4 => rw [isSub_rule 2 _ _ _ (find_cap t), hne]; simp [never, evalPred, ty_beq, RulesPinned.rule25, evalExpr, Ty.isKind]
-  | 5 => rw [isSub_rule 3 _ _ _ (find_cap t), hne]; simp [never, evalPred, ty_beq, RulesPinned.rule25, evalExpr, Ty.isKind]
-  | k + 6 => rw [isSub_rule (k + 4) _ _ _ (find_cap t), hne]; simp [never, evalPred, ty_beq, RulesPinned.rule25, evalExpr, Ty.isKind, field, valEqOneOf, valEq]
-
-theorem isSubC_capAny (m : Nat) (a : Ty) :
-    isSub R (m + 12) a .capAny = (a == .capAny || (a == never ||
-      match a with
-      | .cap _ => true
-      | _ => false)) := by
-  rw [isSub_rule (m + 10) a _ _ find_capAny]
-  cases a <;> simp [RulesPinned.rule25, evalPred, evalExpr, field, Ty.isKind, subVal, valEqOneOf, valEq, isSub_self,
-    isSub_IR_param _ _ (Or.inl rfl)]
 
 end Verif.Proofs.SubUnfold
